@@ -74,6 +74,26 @@ def handle (ws : List String) : String :=
     match str? lab, (if which == "d" then some Tables.protectDefault else if which == "n" then some Tables.protectNewick else none) with
     | some (some l), some prot => hexS (escape (ps == "1") (qu == "1") prot l)
     | _, _ => "bad-op"
+  | ["nexus", ro, cm, ns, text] =>
+    match ropts? ro cm, strList? ns, str? text with
+    | some o, some ns, some (some s) => renderNexus (nexusBlock o ns s)
+    | _, _, _ => "bad-op"
+  | "nexus-text" :: wo :: tokmap :: ntrees :: rest =>
+    -- per tree: name rooting weight <tree…>
+    match wopts? wo, (strList? tokmap).bind pairs?, ntrees.toNat? with
+    | some o, some tm, some n =>
+      let rec go : Nat → List String → Option (List (Str × WT))
+        | 0, [] => some []
+        | 0, _ => none
+        | k + 1, name :: rooting :: weight :: tr =>
+          match str? name, rooting.toNat?, str? weight, tree? (tr.length + 1) tr with
+          | some (some nm), some r, some w, some (t, more) => (go k more).map ((nm, r, w, t) :: ·)
+          | _, _, _, _ => none
+        | _ + 1, _ => none
+      match go n rest with
+      | some trees => hexS (treesBlockText o tm trees)
+      | none => "bad-op"
+    | _, _, _ => "bad-op"
   | ["taxlabels", ps, uu, ns] =>
     match strList? ns with
     | some ns => hexS (taxlabelsText (ps == "1") (uu == "1") ns)
